@@ -300,6 +300,23 @@ func HostileNames() []string {
 	return out
 }
 
+// LastByteNames returns names of 1, 31, 32, 33 and 64 bytes ending in every byte value but zero (the padding byte):
+// the last byte of a name is the one an unpadding routine looks at.
+func LastByteNames() []string {
+	var out []string
+	for b := 1; b < 256; b++ {
+		for _, n := range []int{1, 31, 32, 33, 64} {
+			name := []byte(strings.Repeat("n", n))
+			name[n-1] = byte(b)
+			if n >= 2 && b%2 == 0 {
+				name[n-2] = 0 // and a zero byte right before it
+			}
+			out = append(out, string(name))
+		}
+	}
+	return out
+}
+
 // freezeSelfAfter stops this whole worker process (SIGSTOP) after the given delay and has it continued (SIGCONT, sent
 // by a helper shell) after the given duration: for everything inside the process, wall-clock time jumps while no work
 // is done - what a starved or suspended process sees. Calls in flight at that moment must simply finish afterwards;
